@@ -116,6 +116,17 @@ CHECKS = {
              'getsendbuffer() == accepted. Netstrings: every pair of payloads <= 2 bytes over {":", ",", digit, other} round-trips under every chunking.',
         note='Trusted: the scripted socket/clock model, CrossHair/z3 exhaustion. Outside: real sockets, flags, threads, read_ns retried after a mid-message Timeout, longer streams.',
         ref='C12'),
+    'C13': dict(
+        technique='bounded symbolic execution (CrossHair/z3): FunctionBuilder default bookkeeping on symbolic default values; wraps/update_wrapper over '
+                  'a solver-enumerated signature family with every call shape compared against the original function',
+        text='(a) For builders of arity <= 4 with any number of trailing defaults and <= 2 keyword-only parameters, symbolic default values: after '
+             'remove_arg of any parameter or add_arg (positional/keyword-only, with/without default) every other parameter keeps exactly its '
+             'default. (b) For every signature with 0..3 positional-or-keyword parameters, any defaults, *args, 0..2 keyword-only parameters, '
+             '**kwargs, annotations, sync and async: inspect.signature(wrapper, follow_wrapped=False) == signature(original), metadata and '
+             '__wrapped__, and for all 320 call shapes (0..4 positionals x subsets of 6 keywords) the wrapper accepts/rejects and binds exactly '
+             'like the original; injected removes exactly that parameter, expected adds exactly one. Structure-symbolic enumeration in (b).',
+        note='Trusted: CrossHair/z3 exhaustion, inspect.signature as oracle. Outside: positional-only parameters, non-literal defaults, partials, methods.',
+        ref='C13'),
     'C14': dict(
         technique='bounded symbolic execution (CrossHair/z3 string theory) of args2sh/args2cmd on one symbolic Unicode argument, re-split by '
                   'independent POSIX-shell / MS-CRT reference splitters; integer-list functions over solver-chosen subsets',
